@@ -6,6 +6,7 @@ with that model (Midi/Proofs/Gen*.lean), so a change to the source file that alt
 even where no test input exposes it.
 -/
 import Midi.Proofs.GenPoll
+import Midi.Props.C12
 import Midi.Props.C13
 import Midi.Props.C14
 import Midi.Props.C15
@@ -47,6 +48,19 @@ theorem monitor_accepts (c : Nat) (hc : c < 16) (now timeout : Nat) (ops : List 
       ({} : Mon).accepts c timeout ((project c now ops).zip (outputsOn c now ops outs)) = true := by
   obtain ⟨n, s, outs, h, hacc⟩ := C14.monitor_accepts_scanner c hc now timeout ops hv
   refine ⟨gscanner (PScanner.new timeout), n, gscanner s, outs, new timeout, ?_, hacc⟩
+  rw [grun_eq, scanner_new, h]; rfl
+
+/-- C12 for the translated scanner as a whole: in ANY interleaved history in which channel `c` sees a good schedule of a
+    non-empty sentence of the documented grammar followed by a poll after the timeout, the translated `feed` / `poll`
+    never panic and report for channel `c` exactly the intended messages, each once and in order -/
+theorem sentences (c : Nat) (hc : c < 16) (now timeout t tEnd : Nat) (ops : List TOp) (hv : ∀ op ∈ ops, op.Valid)
+    (bs : List Block) (hne : bs ≠ []) (hb : ∀ b ∈ bs, b.Valid) (sched : List Timed) (hg : Good timeout t bs sched)
+    (hend : C12.lastTime sched + timeout ≤ tEnd)
+    (hview : project c now ops = schedEvents sched ++ [.poll tEnd]) :
+    ∃ s0 n s outs, PollScan.PollingParameterNumberMessageScanner.new timeout = .ok s0 ∧
+      grun now s0 ops = .ok (outs, (n, s)) ∧ reports (outputsOn c now ops outs) = intended c bs := by
+  obtain ⟨n, sh, outs, h, hr⟩ := C12.sentences_scanner c hc now timeout t tEnd ops hv bs hne hb sched hg hend hview
+  refine ⟨gscanner (PScanner.new timeout), n, gscanner sh, outs, new timeout, ?_, hr⟩
   rw [grun_eq, scanner_new, h]; rfl
 
 /-- C13 for the translated scanner as a whole: after ANY interleaving from `new(timeout)`, the translated `poll(c)`
